@@ -553,3 +553,35 @@ Proof.
       destruct Ia as [<-|Ia]; [|exact Ia]. exfalso. apply has_partner_false in Pa0. congruence. }
   apply G; auto using incl_refl; lia.
 Qed.
+
+(* ------------------------------------------------------------------ lifted to merge_element: a conflict is reported
+   before anything is modified at this level *)
+Section Lift.
+Variable T : tables.
+Variable LATEST name_definition_ref : N.
+
+Lemma merge_element_conflict f w pa pb files nf na nb la0 lb0 name :
+  w_nodes w pa = Some na -> w_nodes w pb = Some nb ->
+  keys_of T name_definition_ref w (n_type na) (n_content na) = Val (map inj la0) ->
+  keys_of T name_definition_ref w (n_type na) (n_content nb) = Val (map inj lb0) ->
+  splittable_in T (n_type na)
+    (N.min (files_min_version LATEST w files)
+           (match nth_opt (w_files w) (N.to_nat nf) with Some x => f_version x | None => LATEST end)) = Val false ->
+  Keyed la0 lb0 ->
+  (forall x, In x (la0 ++ lb0) -> pk_name x = name /\ pk_ident x = true) ->
+  (exists a, In a la0 /\ has_partner lb0 a = false) ->
+  (exists b, In b lb0 /\ has_partner la0 b = false) ->
+  merge_element T LATEST name_definition_ref (S f) pa files pb nf w = Val (ER InvalidFileMerge, w).
+Proof.
+  intros Ha Hb Ka Kb Hs K Hk Ea Eb.
+  cbn [merge_element]. unfold wbind at 1. cbn [wget].
+  unfold wbind at 1. unfold get_node at 1. rewrite Ha.
+  unfold wbind at 1. unfold get_node at 1. rewrite Hb.
+  unfold wbind at 1. unfold wl, wlift. rewrite Ka.
+  unfold wbind at 1. rewrite Kb.
+  unfold wbind at 1. rewrite Hs.
+  unfold wbind at 1. rewrite !map_length.
+  rewrite (walk_conflict la0 lb0 _ name K Hk Ea Eb). reflexivity.
+Qed.
+
+End Lift.
